@@ -335,6 +335,125 @@ func (c *ctxT) c13WindowCmp(fn string) (string, string, string) {
 	return op, a, b
 }
 
+type c13Cap struct {
+	totalOnline, deleteOnline, deleteOldOnly, againstLoopTotal, zeroGuard, beforeWrites bool
+	denom                                                                       int
+	cmp                                                                         string
+}
+
+// c13CapFacts reads the power-change cap of UpdateProposalOracles off the AST (see the doc comment emitted with the facts).
+func (c *ctxT) c13CapFacts(fd *ast.FuncDecl) c13Cap {
+	r := c13Cap{cmp: ".other"}
+	if fd == nil || fd.Body == nil {
+		return r
+	}
+	// accumulations inside the loop over the records, with the conditions of the enclosing `if`s
+	var walk func(n ast.Stmt, conds []string)
+	acc := map[string][]string{}
+	seen := map[string]int{}
+	walk = func(n ast.Stmt, conds []string) {
+		switch st := n.(type) {
+		case *ast.BlockStmt:
+			for _, x := range st.List {
+				walk(x, conds)
+			}
+		case *ast.IfStmt:
+			cond := squash(c.src(st.Cond))
+			if st.Init != nil {
+				cond = squash(c.src(st.Init)) + "; " + cond
+			}
+			walk(st.Body, append(append([]string{}, conds...), cond))
+			if st.Else != nil {
+				walk(st.Else, append(append([]string{}, conds...), "!("+cond+")"))
+			}
+		case *ast.RangeStmt:
+			walk(st.Body, conds)
+		case *ast.ForStmt:
+			walk(st.Body, conds)
+		case *ast.AssignStmt:
+			if len(st.Lhs) == 1 && len(st.Rhs) == 1 {
+				if id, ok := st.Lhs[0].(*ast.Ident); ok && (id.Name == "totalPower" || id.Name == "deleteTotalPower") && st.Tok == token.ASSIGN {
+					if strings.HasPrefix(squash(c.src(st.Rhs[0])), id.Name+".Add(oracle.GetPower())") {
+						acc[id.Name] = conds
+						seen[id.Name]++
+					}
+				}
+			}
+		}
+	}
+	walk(fd.Body, nil)
+	has := func(conds []string, sub string) bool {
+		for _, x := range conds {
+			if strings.Contains(x, sub) {
+				return true
+			}
+		}
+		return false
+	}
+	if seen["totalPower"] == 1 {
+		r.totalOnline = len(acc["totalPower"]) == 1 && acc["totalPower"][0] == "oracle.Online"
+	}
+	if seen["deleteTotalPower"] == 1 {
+		r.deleteOnline = has(acc["deleteTotalPower"], "oracle.Online") && !has(acc["deleteTotalPower"], "!oracle.Online")
+		r.deleteOldOnly = has(acc["deleteTotalPower"], "oldOracleMap[oracle.OracleAddress]; ok")
+	}
+	// the "in the new list → continue" skip must come before the old-list test
+	src := squash(c.src(fd.Body))
+	if !strings.Contains(src, "if _, ok := newOracleMap[oracle.OracleAddress]; ok { continue }") {
+		r.deleteOldOnly = false
+	}
+	// threshold := Cap.Mul(<x>).Quo(sdkmath.NewInt(<n>)); refusal: if <a> && <b> { return … }
+	capPos, writePos := token.NoPos, token.NoPos
+	ast.Inspect(fd.Body, func(n ast.Node) bool {
+		switch st := n.(type) {
+		case *ast.AssignStmt:
+			if len(st.Lhs) == 1 && len(st.Rhs) == 1 {
+				if id, ok := st.Lhs[0].(*ast.Ident); ok && id.Name == "maxChangePowerThreshold" {
+					rhs := squash(c.src(st.Rhs[0]))
+					var n int
+					if _, err := fmt.Sscanf(rhs, "types.AttestationProposalOracleChangePowerThreshold.Mul(totalPower).Quo(sdkmath.NewInt(%d))", &n); err == nil {
+						r.againstLoopTotal = seen["totalPower"] == 1
+						r.denom = n
+					}
+				}
+			}
+		case *ast.IfStmt:
+			cond := squash(c.src(st.Cond))
+			if !strings.Contains(cond, "maxChangePowerThreshold") || !strings.Contains(squash(c.src(st.Body)), "return ") {
+				return true
+			}
+			capPos = st.Pos()
+			parts := []ast.Expr{st.Cond}
+			if be, ok := st.Cond.(*ast.BinaryExpr); ok && be.Op == token.LAND {
+				parts = []ast.Expr{be.X, be.Y}
+			}
+			for _, p := range parts {
+				ps := squash(c.src(p))
+				switch {
+				case ps == "deleteTotalPower.GT(sdkmath.ZeroInt())" || ps == "deleteTotalPower.IsPositive()":
+					r.zeroGuard = true
+				case ps == "deleteTotalPower.GTE(maxChangePowerThreshold)":
+					r.cmp = ".ge"
+				case ps == "deleteTotalPower.GT(maxChangePowerThreshold)":
+					r.cmp = ".gt"
+				case ps == "maxChangePowerThreshold.LTE(deleteTotalPower)":
+					r.cmp = ".ge"
+				case ps == "maxChangePowerThreshold.LT(deleteTotalPower)":
+					r.cmp = ".gt"
+				}
+			}
+		case *ast.CallExpr:
+			cs := squash(c.src(st.Fun))
+			if (cs == "k.SetProposalOracle" || cs == "k.UnbondedOracleFromProposal") && (writePos == token.NoPos || st.Pos() < writePos) {
+				writePos = st.Pos()
+			}
+		}
+		return true
+	})
+	r.beforeWrites = capPos != token.NoPos && writePos != token.NoPos && capPos < writePos
+	return r
+}
+
 func extractC13(c *ctxT) {
 	var sb strings.Builder
 	sb.WriteString("namespace FxVerif.Gen.C13\n\n")
@@ -378,6 +497,13 @@ func extractC13(c *ctxT) {
 			strings.Contains(src, "len(oracles) > types.MaxOracleSize")
 	}
 	fmt.Fprintf(&sb, "/-- `cap·total/100`, rejected when `delete > 0 ∧ delete ≥ max`, list length `> MaxOracleSize` rejected -/\ndef capShapeOk : Bool := %s\n\n", lb(capShape))
+	// the cap guard as STRUCTURE (interpreted by Model.C13.govUpdate): which records enter the two sums, what the threshold is
+	// a fraction of, how the removed power is compared with it, and whether the refusal comes before the first write
+	cf := c.c13CapFacts(upd)
+	fmt.Fprintf(&sb, "/-- `UpdateProposalOracles`: the power-change cap read off the AST.  `capTotalOnlineOnly` / `capDeleteOnlineOnly`: the accumulation of\n`totalPower` / `deleteTotalPower` sits inside `if oracle.Online`; `capAgainstLoopTotal`: the threshold is `Cap.Mul(totalPower)` of that accumulator\n(not the stored last total power); `capDenominator`: `.Quo(NewInt(n))`; `capZeroGuard`: the conjunct `deleteTotalPower.GT(0)`;\n`capCmp`: `deleteTotalPower.<cmp>(maxChangePowerThreshold)`; `capBeforeWrites`: the refusing `if` precedes `SetProposalOracle` and every\n`UnbondedOracleFromProposal`; `capDeleteOldListOnly`: removed power is counted only for records on the old list that the new list drops -/\n")
+	fmt.Fprintf(&sb, "def capTotalOnlineOnly : Bool := %s\ndef capDeleteOnlineOnly : Bool := %s\ndef capDeleteOldListOnly : Bool := %s\ndef capAgainstLoopTotal : Bool := %s\ndef capDenominator : Nat := %d\ndef capZeroGuard : Bool := %s\ndef capCmp : Cmp := %s\ndef capBeforeWrites : Bool := %s\n\n",
+		lb(cf.totalOnline), lb(cf.deleteOnline), lb(cf.deleteOldOnly), lb(cf.againstLoopTotal), cf.denom, lb(cf.zeroGuard), cf.cmp, lb(cf.beforeWrites))
+	c.facts["C13.capGuard"] = fmt.Sprintf("totalOnlineOnly=%v deleteOnlineOnly=%v deleteOldListOnly=%v againstLoopTotal=%v denom=%d zeroGuard=%v cmp=%s beforeWrites=%v", cf.totalOnline, cf.deleteOnline, cf.deleteOldOnly, cf.againstLoopTotal, cf.denom, cf.zeroGuard, cf.cmp, cf.beforeWrites)
 
 	// --- BondedOracle / EditBridger guards
 	bondFd := c.findFunc(c13Keeper, "MsgServer", "BondedOracle")
